@@ -78,6 +78,12 @@ def insertSorted (x : String) : List String → List String
 
 def sortStrings (xs : List String) : List String := xs.foldl (fun acc x => insertSorted x acc) []
 
+def insertNat (x : Nat) : List Nat → List Nat
+  | [] => [x]
+  | y :: r => if x < y then x :: y :: r else y :: insertNat x r
+
+def sortNats (xs : List Nat) : List Nat := xs.foldl (fun acc x => insertNat x acc) []
+
 def optId : Option Id → String
   | none => "0" | some t => toString t
 
@@ -94,7 +100,7 @@ def dump (d : D) : String :=
     s.total.map (fun (k, v) => s!"A:{k}:{v}") ++
     s.withdrawal.map (fun (k, v) => s!"W:{k}:{v}") ++
     s.unique.map (fun ((t, n), _) => s!"Q:{t}:{n}") ++
-    s.snaps.map (fun (k, sn) => s!"S:{k}:{sn.node}:{sn.round}:{sn.ts}:{natList sn.txs}") ++
+    s.snaps.map (fun (k, sn) => s!"S:{k}:{sn.node}:{sn.round}:{sn.ts}:{natList (sortNats sn.txs)}") ++
     s.topo.map (fun (k, v) => s!"O:{k}:{v}") ++
     s.snapTopo.map (fun (k, v) => s!"P:{k}:{v}") ++
     s.work.map (fun ((n, r, ts), (sn, sg)) => s!"K:{n}:{r}:{ts}:{sn}:{sg}") ++
